@@ -3,7 +3,9 @@ package main
 import (
 	"bytes"
 	"fmt"
+	"math/big"
 	"math/rand"
+	"strconv"
 	"os"
 	"path/filepath"
 	"strings"
@@ -22,7 +24,13 @@ type hostile struct {
 
 func mutateNumber(rng *rand.Rand, orig string) string {
 	opts := []string{"0", "-1", "-0", "-2", "", "+" + orig, "0" + orig, " " + orig, orig + " ", "99999999999999999999999999999", "18446744073709551616",
-		"9223372036854775807", "-9223372036854775808", "2147483648", "4294967296", "1048577", "536870913", "1e3", "0x10", orig + "a", "٣"}
+		"9223372036854775807", "-9223372036854775808", "2147483648", "4294967296", "1048577", "536870913", "1e3", "0x10", orig + "a", "٣",
+		"9223372036854775808", "9223372036854775809", "18446744073709551617", "18446744073709551618", "18446744073709551619", "36893488147419103234",
+		"18446744073709551620", "-9223372036854775809", "00000000000000000000" + orig, "184467440737095516160000000003"}
+	if v, err := strconv.Atoi(orig); err == nil && rng.Intn(6) == 0 {
+		// 2^64 + v: wraps to exactly v in a 64-bit accumulator
+		return new(big.Int).Add(new(big.Int).Lsh(big.NewInt(1), 64), big.NewInt(int64(v))).String()
+	}
 	return opts[rng.Intn(len(opts))]
 }
 
